@@ -297,3 +297,174 @@ Proof.
            (two_wf_dict fo C1 xsA xsB tokA tokB dcA dcB ezA ezB TA0 TB0 RA RB) HB1 HB2 Hat Hnum
            (two_tok fo C1 xsA xsB tokA tokB dcA dcB ezA ezB TA0 TB0 RA RB P1 W) eq_refl eq_refl S1 S2).
 Qed.
+
+(** ez_cut_invariant THROUGH THE PARSER, for two-fragment strings: two strings that cut the same molecule at different places
+    (and/or list the fragments in different orders) - e.g. cut at the stereo double bond and cut elsewhere - whose tokens say
+    the same sides store the true relation for the same four atoms, outside the open classes *)
+Theorem cut_invariant_strings fo C1 C2 xsA1 xsB1 xsA2 xsB2 tokA1 tokB1 tokA2 tokB2 dcA1 dcB1 dcA2 dcB2 ezA1 ezB1 ezA2 ezB2
+        TA1 TB1 TA2 TB2 (base1 base2 : pystr) mol1 mol2 o1 o2 :
+  let tA1 := render (decorate tokA1 dcA1) in let tB1 := render (decorate tokB1 dcB1) in
+  let tA2 := render (decorate tokA2 dcA2) in let tB2 := render (decorate tokB2 dcB2) in
+  let tok1 := tok2 xsA1 xsB1 ezA1 ezB1 in let tok2' := tok2 xsA2 xsB2 ezA2 ezB2 in
+  frag_reading fo C1 nA xsA1 tokA1 dcA1 ezA1 TA1 -> frag_reading fo C1 nB xsB1 tokB1 dcB1 ezB1 TB1 -> parts_AB C1 xsA1 xsB1 ->
+  frag_reading fo C2 nA xsA2 tokA2 dcA2 ezA2 TA2 -> frag_reading fo C2 nB xsB2 tokB2 dcB2 ezB2 TB2 -> parts_AB C2 xsA2 xsB2 ->
+  wf_cut C1 -> heavy_payload C1 -> numeric_orders C1 -> wf_cut C2 -> heavy_payload C2 -> numeric_orders C2 ->
+  base1 <> [] -> ~ In "}"%char base1 -> read_cgsmiles fo ("{"%char :: base1 ++ ["}"%char]) = Ok mol1 -> is_base C1 (next_meta mol1) ->
+  base2 <> [] -> ~ In "}"%char base2 -> read_cgsmiles fo ("{"%char :: base2 ++ ["}"%char]) = Ok mol2 -> is_base C2 (next_meta mol2) ->
+  ~ In ","%char tA1 /\ ~ In ","%char tB1 /\ ~ In "}"%char tA1 /\ ~ In "}"%char tB1 ->
+  ~ In ","%char tA2 /\ ~ In ","%char tB2 /\ ~ In "}"%char tA2 /\ ~ In "}"%char tB2 ->
+  resolve_string fo ("{"%char :: base1 ++ "}"%char :: "."%char :: block2 tA1 tB1) = Ok o1 ->
+  resolve_string fo ("{"%char :: base2 ++ "}"%char :: "."%char :: block2 tA2 tB2) = Ok o2 ->
+  exists m1 m2, sort_mapping (fo_m4 o1) = Ok m1 /\ sort_mapping (fo_m4 o2) = Ok m2 /\
+    forall lx ax ay ly ux uy c1 c2 k1 k2,
+      In lx (flat C1) -> In ax (flat C1) -> In ay (flat C1) -> In ly (flat C1) ->
+      In lx (flat C2) -> In ax (flat C2) -> In ay (flat C2) -> In ly (flat C2) ->
+      tok1 lx = Some (tok_of ux (wb C1 lx ax)) -> tok1 ly = Some (tok_of uy (wb C1 ly ay)) ->
+      tok2' lx = Some (tok_of ux (wb C2 lx ax)) -> tok2' ly = Some (tok_of uy (wb C2 ly ay)) ->
+      late_after C1 lx ax ay ly = true -> late_after C2 lx ax ay ly = true ->
+      is_new (fo_m5 o1) (fo_mol o1) k1
+        (ez_tuple (map_get m1 (phi C1 lx)) (map_get m1 (phi C1 ax)) (map_get m1 (phi C1 ay)) (map_get m1 (phi C1 ly)) c1) ->
+      is_new (fo_m5 o2) (fo_mol o2) k2
+        (ez_tuple (map_get m2 (phi C2 lx)) (map_get m2 (phi C2 ax)) (map_get m2 (phi C2 ay)) (map_get m2 (phi C2 ly)) c2) ->
+      c1 = class_val (Bool.eqb ux uy) /\ c2 = class_val (Bool.eqb ux uy).
+Proof.
+  intros tA1 tB1 tA2 tB2 tok1 tok2' RA1 RB1 P1 RA2 RB2 P2 W1 Hat1 Hn1 W2 Hat2 Hn2 Nb1 Hb1 Hm1 HB1 Nb2 Hb2 Hm2 HB2 Sep1 Sep2 R1 R2.
+  pose proof (string_step fo C1 xsA1 xsB1 tokA1 tokB1 dcA1 dcB1 ezA1 ezB1 TA1 TB1 RA1 RB1 base1 mol1 Nb1 Hb1 Hm1 Sep1 o1 R1) as S1.
+  pose proof (string_step fo C2 xsA2 xsB2 tokA2 tokB2 dcA2 dcB2 ezA2 ezB2 TA2 TB2 RA2 RB2 base2 mol2 Nb2 Hb2 Hm2 Sep2 o2 R2) as S2.
+  exact (cut_invariant C1 C2 _ _ (next_meta mol1) (next_meta mol2) tok1 tok2' mol1 mol2 o1 o2
+           W1 (two_templates_ok fo C1 xsA1 xsB1 tokA1 tokB1 dcA1 dcB1 ezA1 ezB1 TA1 TB1 RA1 RB1 P1)
+           (two_wf_dict fo C1 xsA1 xsB1 tokA1 tokB1 dcA1 dcB1 ezA1 ezB1 TA1 TB1 RA1 RB1) HB1 Hat1 Hn1
+           W2 (two_templates_ok fo C2 xsA2 xsB2 tokA2 tokB2 dcA2 dcB2 ezA2 ezB2 TA2 TB2 RA2 RB2 P2)
+           (two_wf_dict fo C2 xsA2 xsB2 tokA2 tokB2 dcA2 dcB2 ezA2 ezB2 TA2 TB2 RA2 RB2) HB2 Hat2 Hn2
+           (two_tok fo C1 xsA1 xsB1 tokA1 tokB1 dcA1 dcB1 ezA1 ezB1 TA1 TB1 RA1 RB1 P1 W1)
+           (two_tok fo C2 xsA2 xsB2 tokA2 tokB2 dcA2 dcB2 ezA2 ezB2 TA2 TB2 RA2 RB2 P2 W2) eq_refl eq_refl S1 S2).
+Qed.
+
+(** ---------------------------------------------------------------- ONE fragment: {[#A]}.{#A=<text>} *)
+Definition block1 (tA : pystr) : pystr := "{"%char :: (S "#A=" ++ tA) ++ ["}"%char].
+Definition sA (tA : pystr) : pystr := S "{[#A]}." ++ block1 tA.
+Lemma fragment_split1 tA : ~ In ","%char tA -> fragment_split (block1 tA) = [(S "A", tA)].
+Proof.
+  intros NA. unfold fragment_split, block1. cbn [skipn]. rewrite removelast_last.
+  change (S "#A=" ++ tA) with (join [","%char] [S "#A=" ++ tA]).
+  rewrite py_split_join; [reflexivity|discriminate|].
+  repeat constructor; cbn; intros H; repeat (destruct H as [H|H]; [discriminate H|]); auto.
+Qed.
+Lemma find_blocks_1 (base : pystr) tA : base <> [] -> ~ In "}"%char base -> ~ In "}"%char tA ->
+  find_blocks ("{"%char :: base ++ "}"%char :: "."%char :: block1 tA) = ["{"%char :: base ++ ["}"%char]; block1 tA].
+Proof.
+  intros Nb Hb NA. rewrite (find_blocks_cons base _ Nb Hb). f_equal.
+  rewrite find_blocks_skip by discriminate. unfold block1.
+  change ("{"%char :: (S "#A=" ++ tA) ++ ["}"%char]) with ("{"%char :: (S "#A=" ++ tA) ++ "}"%char :: []).
+  rewrite find_blocks_cons; [reflexivity|discriminate|].
+  intros H. apply in_app_or in H as [H|H]; [vm_compute in H; repeat (destruct H as [H|H]; [discriminate H|]); exact H|now apply NA].
+Qed.
+Theorem string_is_step1 fo (base : pystr) mol tA TA o :
+  base <> [] -> ~ In "}"%char base -> read_cgsmiles fo ("{"%char :: base ++ ["}"%char]) = Ok mol ->
+  ~ In ","%char tA -> ~ In "}"%char tA -> marked_template fo (S "A") tA = Ok TA ->
+  resolve_string fo ("{"%char :: base ++ "}"%char :: "."%char :: block1 tA) = Ok o ->
+  resolve_step_full true true [(S "A", TA)] mol (Some (fo_m3 o)) = Ok o.
+Proof.
+  intros Nb Hb Hm CA BA HA H. unfold resolve_string, from_string in H.
+  rewrite (find_blocks_1 base tA Nb Hb BA), Hm in H. cbn [bind read_fragment_strings] in H.
+  unfold read_fragments_model, read_fragments_aa in H. rewrite (fragment_split1 tA CA) in H.
+  cbn [fold_res fst snd] in H. rewrite HA in H. cbn [bind fd_add] in H.
+  cbn [st_dicts st_mol init] in H.
+  set (fd := [(S "A", TA)]) in *.
+  set (meta := set_nodes_from mol (S "fragname") (get_node_attributes mol (S "atomname"))) in *.
+  destruct (resolve_disconnected fd meta) as [[m1 fg1]|] eqn:E1; cbn [bind] in H; [|discriminate H].
+  destruct (bonding_step true true meta m1 fg1) as [[m2 fg2]|] eqn:E2; cbn [bind] in H; [|discriminate H].
+  destruct (Squash.squash_atoms m2) as [m3|] eqn:E3; cbn [bind] in H; [|discriminate H].
+  assert (M3 : fo_m3 o = m3).
+  { unfold resolve_step_full in H. fold meta in H. rewrite E1 in H. cbn [bind] in H. rewrite E2 in H. cbn [bind] in H. rewrite E3 in H. cbn [bind] in H.
+    destruct (Hydrogens.rebuild_h_atoms_default m3 (Some m3)) as [m4|]; cbn [bind] in H; [|discriminate H].
+    destruct (sort_nodes_by_attr m4) as [m5|]; cbn [bind] in H; [|discriminate H].
+    destruct (annotate_ez_isomers_cgsmiles m5) as [m6|]; cbn [bind] in H; [|discriminate H].
+    destruct (annotate_fragments meta m6) as [fgs|]; cbn [bind] in H; [|discriminate H].
+    destruct (set_atom_names m6 meta fgs) as [[m7 fgs']|]; cbn [bind] in H; [|discriminate H].
+    inversion H. reflexivity. }
+  rewrite M3. exact H.
+Qed.
+Definition baseA : graph :=
+  Eval vm_compute in match read_cgsmiles (fo_of_table []) (S "{[#A]}") with Ok g => g | Err _ => gempty end.
+Lemma read_baseA fo : read_cgsmiles fo (S "{[#A]}") = Ok baseA.
+Proof. vm_compute. reflexivity. Qed.
+
+Definition tok1f (xs : list Z) (ez : ndict ascii) (x : Z) : option pyval := tok_of_ez ez (index_in x xs).
+Section OneFragment.
+  Variable fo : float_oracle.
+  Variable C : cut.
+  Variables (xs : list Z) (toks : list tok) (dc : decor) (ez : ndict ascii) (T0 : tmpl).
+  Hypothesis R : frag_reading fo C nA xs toks dc ez T0.
+  Hypothesis HP : c_parts C = [(nA, xs)].
+  Hypothesis W : wf_cut C.
+  Let fd : fragdict := [(nA, tmpl_graph T0)].
+  Lemma one_templates_ok : templates_ok C fd.
+  Proof.
+    intros name ys I. rewrite HP in I. destruct I as [E|[]]. inversion E; subst name ys.
+    exists (tmpl_graph T0). split; [reflexivity|]. exact (proj1 (proj2 (reading_template _ _ _ _ _ _ _ _ R))).
+  Qed.
+  Lemma one_wf_dict : wf_dict fd.
+  Proof.
+    intros name g H. unfold fd in H. cbn [fd_get] in H. destruct (str_eqb name nA); [|discriminate H].
+    inversion H; subst g. eapply is_template_wf. exact (proj1 (proj2 (reading_template _ _ _ _ _ _ _ _ R))).
+  Qed.
+  Lemma one_tok : forall name ys T i x n, In (name, ys) (c_parts C) -> fd_get name fd = Some T ->
+    nth_error ys i = Some x -> gfind (Z.of_nat i) T = Some n -> aget ezk (na n) = tok1f xs ez x.
+  Proof.
+    intros name ys T i x n I Ef Ex Gn. rewrite HP in I. destruct I as [E|[]]. inversion E; subst name ys.
+    change (fd_get nA fd) with (Some (tmpl_graph T0)) in Ef. inversion Ef; subst T.
+    assert (ND : NoDup xs). { pose proof (wc_nodup _ W) as N. unfold flat in N. rewrite HP in N. cbn in N. now rewrite app_nil_r in N. }
+    unfold tok1f. rewrite (index_in_nth xs i x ND Ex).
+    exact (proj2 (proj2 (reading_template _ _ _ _ _ _ _ _ R)) i x n Ex Gn).
+  Qed.
+  Lemma string_step1 (base : pystr) mol o : base <> [] -> ~ In "}"%char base ->
+    read_cgsmiles fo ("{"%char :: base ++ ["}"%char]) = Ok mol ->
+    ~ In ","%char (render (decorate toks dc)) -> ~ In "}"%char (render (decorate toks dc)) ->
+    resolve_string fo ("{"%char :: base ++ "}"%char :: "."%char :: block1 (render (decorate toks dc))) = Ok o ->
+    resolve_step_full true true fd mol (Some (fo_m3 o)) = Ok o.
+  Proof.
+    intros Nb Hb Hm S1 S2. exact (string_is_step1 fo base mol _ _ o Nb Hb Hm S1 S2 (proj1 (reading_template _ _ _ _ _ _ _ _ R))).
+  Qed.
+End OneFragment.
+
+(** ez_cut_invariant through the parser, ONE FRAGMENT against a cut in two: {[#A]}.{#A=t} against
+    {base}.{#A=tA,#B=tB} (cut at the stereo double bond, or elsewhere; either base order) *)
+Theorem one_vs_two_strings fo C1 C2 xs1 xsA2 xsB2 tok1 tokA2 tokB2 dc1 dcA2 dcB2 ez1 ezA2 ezB2 T1 TA2 TB2 (base2 : pystr) mol2 o1 o2 :
+  let t1 := render (decorate tok1 dc1) in
+  let tA2 := render (decorate tokA2 dcA2) in let tB2 := render (decorate tokB2 dcB2) in
+  let tk1 := tok1f xs1 ez1 in let tk2 := tok2 xsA2 xsB2 ezA2 ezB2 in
+  frag_reading fo C1 nA xs1 tok1 dc1 ez1 T1 -> c_parts C1 = [(nA, xs1)] ->
+  frag_reading fo C2 nA xsA2 tokA2 dcA2 ezA2 TA2 -> frag_reading fo C2 nB xsB2 tokB2 dcB2 ezB2 TB2 -> parts_AB C2 xsA2 xsB2 ->
+  wf_cut C1 -> heavy_payload C1 -> numeric_orders C1 -> wf_cut C2 -> heavy_payload C2 -> numeric_orders C2 ->
+  is_base C1 (next_meta baseA) ->
+  base2 <> [] -> ~ In "}"%char base2 -> read_cgsmiles fo ("{"%char :: base2 ++ ["}"%char]) = Ok mol2 -> is_base C2 (next_meta mol2) ->
+  ~ In ","%char t1 -> ~ In "}"%char t1 ->
+  ~ In ","%char tA2 /\ ~ In ","%char tB2 /\ ~ In "}"%char tA2 /\ ~ In "}"%char tB2 ->
+  resolve_string fo (sA t1) = Ok o1 ->
+  resolve_string fo ("{"%char :: base2 ++ "}"%char :: "."%char :: block2 tA2 tB2) = Ok o2 ->
+  exists m1 m2, sort_mapping (fo_m4 o1) = Ok m1 /\ sort_mapping (fo_m4 o2) = Ok m2 /\
+    forall lx ax ay ly ux uy c1 c2 k1 k2,
+      In lx (flat C1) -> In ax (flat C1) -> In ay (flat C1) -> In ly (flat C1) ->
+      In lx (flat C2) -> In ax (flat C2) -> In ay (flat C2) -> In ly (flat C2) ->
+      tk1 lx = Some (tok_of ux (wb C1 lx ax)) -> tk1 ly = Some (tok_of uy (wb C1 ly ay)) ->
+      tk2 lx = Some (tok_of ux (wb C2 lx ax)) -> tk2 ly = Some (tok_of uy (wb C2 ly ay)) ->
+      late_after C1 lx ax ay ly = true -> late_after C2 lx ax ay ly = true ->
+      is_new (fo_m5 o1) (fo_mol o1) k1
+        (ez_tuple (map_get m1 (phi C1 lx)) (map_get m1 (phi C1 ax)) (map_get m1 (phi C1 ay)) (map_get m1 (phi C1 ly)) c1) ->
+      is_new (fo_m5 o2) (fo_mol o2) k2
+        (ez_tuple (map_get m2 (phi C2 lx)) (map_get m2 (phi C2 ax)) (map_get m2 (phi C2 ay)) (map_get m2 (phi C2 ly)) c2) ->
+      c1 = class_val (Bool.eqb ux uy) /\ c2 = class_val (Bool.eqb ux uy).
+Proof.
+  intros t1 tA2 tB2 tk1 tk2 R1 HP1 RA2 RB2 P2 W1 Hat1 Hn1 W2 Hat2 Hn2 HB1 Nb2 Hb2 Hm2 HB2 S1a S1b Sep2 Q1 Q2.
+  assert (NbA : S "[#A]" <> []) by discriminate.
+  assert (HbA : ~ In "}"%char (S "[#A]")) by (vm_compute; intuition discriminate).
+  pose proof (string_step1 fo C1 xs1 tok1 dc1 ez1 T1 R1 (S "[#A]") baseA o1 NbA HbA (read_baseA fo) S1a S1b Q1) as St1.
+  pose proof (string_step fo C2 xsA2 xsB2 tokA2 tokB2 dcA2 dcB2 ezA2 ezB2 TA2 TB2 RA2 RB2 base2 mol2 Nb2 Hb2 Hm2 Sep2 o2 Q2) as St2.
+  exact (cut_invariant C1 C2 _ _ (next_meta baseA) (next_meta mol2) tk1 tk2 baseA mol2 o1 o2
+           W1 (one_templates_ok fo C1 xs1 tok1 dc1 ez1 T1 R1 HP1) (one_wf_dict fo C1 xs1 tok1 dc1 ez1 T1 R1) HB1 Hat1 Hn1
+           W2 (two_templates_ok fo C2 xsA2 xsB2 tokA2 tokB2 dcA2 dcB2 ezA2 ezB2 TA2 TB2 RA2 RB2 P2)
+           (two_wf_dict fo C2 xsA2 xsB2 tokA2 tokB2 dcA2 dcB2 ezA2 ezB2 TA2 TB2 RA2 RB2) HB2 Hat2 Hn2
+           (one_tok fo C1 xs1 tok1 dc1 ez1 T1 R1 HP1 W1)
+           (two_tok fo C2 xsA2 xsB2 tokA2 tokB2 dcA2 dcB2 ezA2 ezB2 TA2 TB2 RA2 RB2 P2 W2) eq_refl eq_refl St1 St2).
+Qed.
